@@ -50,6 +50,8 @@ def _node_oracle(spec, desc, real):
     from harness import lib_vpnodes as N
 
     b = spec["backend"]
+    if desc is None or real.get("unobservable"):
+        return []  # the harness could not even build this node without a fault: nothing to judge
     if "raise" in b and not b["raise"]["isExc"]:
         return []  # KeyboardInterrupt & co. are not faults of the evaluator: out of scope
     kind, ctor = N.result_kind(spec, desc), N.declared_ctor(desc)
@@ -60,8 +62,8 @@ def _node_oracle(spec, desc, real):
         return out
     node = real["node"]
     for (key, var), ty0 in zip(node.outputs.get_vars().items(), (desc or {}).get("types", [])):
-        if var._value is not None:
-            why = L.conforms(var._value.value, var.type) if var.type is not None else "untyped-var"
+        if L.has_value(var):
+            why = L.conforms_var(var)
             if why:
                 out.append((f"bad-value:{kind}:{ctor}",
                             f"[{spec['sel']}] output {key} of {spec['node']} got a value not conforming to {var.type}: {why}"))
@@ -106,6 +108,7 @@ def _run(ck: core.Check, pool):
     from harness import lib_vpprog as P
 
     rng = ck.rng
+    L.single_threaded_ort()
     # ---- program-level tasks first (they run in the worker processes while the rest goes on)
     n_prog = ck.pick(60, 600)
     tasks = []
@@ -124,11 +127,71 @@ def _run(ck: core.Check, pool):
     if ck.thorough:
         ck.leanchecker(["SpoxModel.Props.C15"])
 
+    try:
+        _correspond(ck, rng)
+    except Exception as e:  # noqa: BLE001 - never let an unobservable internal crash the run
+        ck.broken("correspondence", f"C15 scripted-backend correspondence not observable: {type(e).__name__}", core.fmt_exc())
+
+    # ---- program-level oracle results
+    try:
+        results = pending.get(timeout=1500)
+    except Exception as e:  # noqa: BLE001
+        ck.broken("oracle", "C15 program oracle workers failed", f"{type(e).__name__}: {str(e)[:200]}")
+        results = [{"failures": [], "infra": "worker pool failed"} for _ in tasks]
+    pstats = {"fault_runs": 0, "effective_faults": 0, "off_checks": 0, "infra": 0, "by_kind": {}}
+    for task, r in zip(tasks, results):
+        ck.count(("prog", json.dumps(task, sort_keys=True)))
+        if r.get("infra"):
+            pstats["infra"] += 1
+            ck.notes.append(f"program case skipped: {r['infra']}"[:200]) if len(ck.notes) < 5 else None
+        if task["level"] == "program":
+            pstats["fault_runs"] += 1
+            pstats["effective_faults"] += int(bool(r.get("effective")))
+            pstats["by_kind"][task["kind"]] = pstats["by_kind"].get(task["kind"], 0) + 1
+        else:
+            pstats["off_checks"] += 1
+        for key, what in r["failures"]:
+            ck.failure(key, what, _shrink(task, key))
+    if pstats["infra"] > len(tasks) // 10:
+        ck.broken("oracle", "C15 program oracle starved", f"{pstats['infra']} of {len(tasks)} program cases could not be judged")
+    ck.cov.update({"program_cases": pstats})
+    ck.exhaustive = False
+    ck.rule = (
+        "conversions: every (declared type x raw result x {REFERENCE, ONNXRUNTIME}) of the universe; nodes: the same universe "
+        "through a scripted-type Identity node, naming faults, every exception class at init/run, skip conditions, "
+        "TopK/Split/inline name->field mapping, real constructors with Sequence/Optional outputs, + seeded random; "
+        "programs: seeded random constant-expression programs with one fault at a random backend call; "
+        "distinct by full case description"
+    )
+    ck.assumptions += [
+        "the evaluator's faults are Exception subclasses or returned objects of the RefVal universe (KeyboardInterrupt/SystemExit propagate: out of scope, compared but not judged)",
+        "VALUE_PROP_STRICT_CHECK is off (the library default; strict mode raises by design)",
+        "type inference is a parameter of the node model (scripted-type nodes) - its own soundness is C05/C06",
+    ]
+    ck.trusted_base += [
+        "harness/lib_valueprop.py: the scripted backend, the JSON canonicalisers and the independent conformance checker `conforms`",
+    ]
+
+
+def _safe(ck, facet, fn, default=None):
+    """Observation of spox internals must never crash the run: an unobservable facet is `broken`."""
+    try:
+        return fn()
+    except Exception as e:  # noqa: BLE001
+        ck.broken("correspondence", f"{facet} not observable: {type(e).__name__}: {str(e)[:150]}")
+        return default
+
+
+def _correspond(ck, rng):
+    from harness import lib_valueprop as L
+    from harness import lib_vpnodes as N
+
     # ---- tie H (1): conversions and check
     conv = _conv_cases()
     node_cases = N.gen_cases(rng, ck.thorough)
-    descs = [N.describe(c) for c in node_cases]
-    reals = [N.run_case(c) for c in node_cases]
+    descs = [_safe(ck, "C15 node description", lambda c=c: N.describe(c)) for c in node_cases]
+    reals = [_safe(ck, "C15 node construction outcome", lambda c=c: N.run_case(c), {"unobservable": True, "outs": [], "nwarn": 0, "node": None})
+             for c in node_cases]
     node_reqs = [N.model_request(c, d) if d else {"fn": "bad"} for c, d in zip(node_cases, descs)]
     try:
         answers = ck.driver().ask_many("C15", conv + node_reqs)
@@ -137,8 +200,10 @@ def _run(ck: core.Check, pool):
         answers = [None] * (len(conv) + len(node_reqs))
     mism = 0
     for req, m in zip(conv, answers[: len(conv)]):
-        real = _conv_real(req)
+        real = _safe(ck, "C15 PropValue conversions", lambda req=req: _conv_real(req))
         ck.count(("conv", json.dumps(req, sort_keys=True)))
+        if real is None:
+            continue
         if m is not None and m != real:
             mism += 1
             if mism <= 3:
@@ -157,9 +222,9 @@ def _run(ck: core.Check, pool):
             stats["dropped"] += 1
         for key, what in _node_oracle(spec, desc, real):
             ck.failure(key, what, {"level": "node", "spec": spec})
-        if desc is None:
+        if desc is None or real.get("unobservable"):
             stats["no_desc"] += 1
-            ck.broken("correspondence", "C15 node cannot be described (fault-free construction fails)", json.dumps(spec))
+            ck.broken("correspondence", "C15 node not observable (fault-free construction fails)", json.dumps(spec)[:300])
             continue
         if m is not None:
             why = L.compare_outcome(m, real)
@@ -170,49 +235,14 @@ def _run(ck: core.Check, pool):
                               f"spec={json.dumps(spec)} ctx={json.dumps(desc['ctx'])}: {why}")
     ck.sample({"node_case": node_cases[0], "real": {k: v for k, v in reals[0].items() if k != "node"}})
     ck.sample({"node_case": node_cases[-1], "real": {k: v for k, v in reals[-1].items() if k != "node"}})
-
-    # ---- program-level oracle results
-    results = pending.get(timeout=1500)
-    pstats = {"fault_runs": 0, "effective_faults": 0, "off_checks": 0, "infra": 0, "by_kind": {}}
-    for task, r in zip(tasks, results):
-        ck.count(("prog", json.dumps(task, sort_keys=True)))
-        if r.get("infra"):
-            pstats["infra"] += 1
-            ck.notes.append(f"program case skipped: {r['infra']}"[:200]) if len(ck.notes) < 5 else None
-        if task["level"] == "program":
-            pstats["fault_runs"] += 1
-            pstats["effective_faults"] += int(bool(r.get("effective")))
-            pstats["by_kind"][task["kind"]] = pstats["by_kind"].get(task["kind"], 0) + 1
-        else:
-            pstats["off_checks"] += 1
-        for key, what in r["failures"]:
-            ck.failure(key, what, _shrink(task, key))
-    if pstats["infra"] > len(tasks) // 10:
-        ck.broken("oracle", "C15 program oracle starved", f"{pstats['infra']} of {len(tasks)} program cases could not be judged")
     ck.cov.update({
         "conversion_cases": len(conv), "conversion_mismatches": mism,
         "node_cases": len(node_cases), "node_mismatches": nmism, "node_outcomes": stats,
-        "program_cases": pstats,
         "result_universe": len(L.result_universe()), "declared_universe": len(L.declared_universe()) + 1,
         "exception_classes": [c.__name__ for c in L.EXC_CLASSES],
         "out_of_scope_classes": [c.__name__ for c in L.BASE_EXC_CLASSES],
     })
-    ck.exhaustive = False
-    ck.rule = (
-        "conversions: every (declared type x raw result x {REFERENCE, ONNXRUNTIME}) of the universe; nodes: the same universe "
-        "through a scripted-type Identity node, naming faults, every exception class at init/run, skip conditions, "
-        "TopK/Split/inline name->field mapping, real constructors with Sequence/Optional outputs, + seeded random; "
-        "programs: seeded random constant-expression programs with one fault at a random backend call; "
-        "distinct by full case description"
-    )
-    ck.assumptions += [
-        "the evaluator's faults are Exception subclasses or returned objects of the RefVal universe (KeyboardInterrupt/SystemExit propagate: out of scope, compared but not judged)",
-        "VALUE_PROP_STRICT_CHECK is off (the library default; strict mode raises by design)",
-        "type inference is a parameter of the node model (scripted-type nodes) - its own soundness is C05/C06",
-    ]
-    ck.trusted_base += [
-        "harness/lib_valueprop.py: the scripted backend, the JSON canonicalisers and the independent conformance checker `conforms`",
-    ]
+
 
 
 def _shrink(task, key):
